@@ -24,6 +24,7 @@ import (
 	"context"
 	"fmt"
 	"io/fs"
+	"math"
 	"os"
 	"path/filepath"
 	"strings"
@@ -450,7 +451,49 @@ func main() {
 		r.Set(fmt.Sprintf("trees_with_%d_nodes", n), len(trees))
 	}
 	imagePart(r)
-	r.Finish(fmt.Sprintf("every tree with <=%d nodes (dirs a,b; p1.txt size 1, p2.txt size 5 required by two extractors, junk): (A) MaxInodes in {0,1,n-1,n,n+1} with 1 and 2 roots; (B) MaxFileSize in {0,1,s-1,s,s+1} for every file size s, and through a symlink to the 5-byte file with ReadSymlinks on; (C) cancellation at every event of the uncancelled run (inode visit, Extract, AfterExtractorRun, standalone extractor, detector; and before Scan) for 0/1/2 standalone extractors and detectors, whole-tree walk and explicit-path mode (first directory + first required file requested); (D) images: file size L-1,L,L+1 x MaxFileBytes L in {1,2,5,4096} x layer position x older version underneath. non-trivial = limit actually hit / work actually cut", maxNodes), complete)
+	hugeSizes(r)
+	r.Finish(fmt.Sprintf("every tree with <=%d nodes (dirs a,b; p1.txt size 1, p2.txt size 5 required by two extractors, junk): (A) MaxInodes in {0,1,n-1,n,n+1} with 1 and 2 roots; (B) MaxFileSize in {0,1,s-1,s,s+1} for every file size s, and through a symlink to the 5-byte file with ReadSymlinks on; (B'') Stat sizes 2^31-1..2^63-1 x limits around the same boundaries; (C) cancellation at every event of the uncancelled run (inode visit, Extract, AfterExtractorRun, standalone extractor, detector; and before Scan) for 0/1/2 standalone extractors and detectors, whole-tree walk and explicit-path mode (first directory + first required file requested); (D) images: file size L-1,L,L+1 x MaxFileBytes L in {1,2,5,4096} x layer position x older version underneath. non-trivial = limit actually hit / work actually cut", maxNodes), complete)
+}
+
+// hugeSizes: (B”) file sizes around the 32-bit and 63-bit boundaries (reported by Stat; the
+// content is not materialised) against limits around the same boundaries. A file is handed to an
+// extractor iff the limit is 0 or size <= limit — for every pair, also when either number does
+// not fit a narrower integer type.
+func hugeSizes(r *ev.Run) {
+	sizes := []int64{1, 5, 1<<31 - 1, 1 << 31, 1<<31 + 1, 1<<32 - 1, 1 << 32, 1<<32 + 1, 1<<32 + 5, 1<<33 + 1, 1 << 62, math.MaxInt64}
+	limits := []int{0, 1, 5, 6, 1<<31 - 1, 1 << 31, 1<<32 - 1, 1 << 32, 1<<32 + 1, 1 << 62, math.MaxInt64}
+	for _, sz := range sizes {
+		for _, lim := range limits {
+			for _, nested := range []bool{false, true} {
+				f := &memfs.Node{Name: "p1.txt", Kind: memfs.File, Data: "1", FakeSize: sz}
+				root := memfs.D("", f, memfs.F("p2.txt", "22222"))
+				if nested {
+					root = memfs.D("", memfs.D("a", f), memfs.F("p2.txt", "22222"))
+				}
+				o := runScan(scanCfg{roots: []*memfs.Node{root}, maxSize: lim, cancelAt: -1, twoEx: true})
+				r.Evals.Add(1)
+				rp := map[string]any{"reported_size": sz, "max_file_size": lim, "nested": nested}
+				extracted := false
+				for _, e := range o.events {
+					if e.kind == "extract" && strings.HasSuffix(e.path, "p1.txt") {
+						extracted = true
+					}
+				}
+				want := lim == 0 || sz <= int64(lim)
+				if !want {
+					r.Nontrivial.Add(1)
+				}
+				switch {
+				case extracted && !want:
+					r.Violation("file-over-size-limit-extracted", fmt.Sprintf("a file whose Stat size is %d was extracted with MaxFileSize=%d", sz, lim), rp)
+				case !extracted && want:
+					r.Violation("file-within-size-limit-not-extracted", fmt.Sprintf("a file whose Stat size is %d was not extracted with MaxFileSize=%d", sz, lim), rp)
+				case o.status != plugin.ScanStatusSucceeded:
+					r.Violation("size-limit-fails-scan", fmt.Sprintf("size %d MaxFileSize=%d: %s", sz, lim, o.statusS), rp)
+				}
+			}
+		}
+	}
 }
 
 func evAt(evs []event, at int) any {
